@@ -17,7 +17,8 @@ def scenarios(ctx):
     out = []
     Q = [{"r": 1}, {"f": 1}, {"k": 1}]
     T = [{"r": 1, "f": 1}, {"f": 2}, {"k": 1, "f": 1}, {"r": 2}, {"p": 1}]
-    B = Q if quick else T
+    B = Q if quick else T  # the deep vectors, on the central scenarios only (a pair of deviations costs ~10^5 group executions per scenario)
+    B2 = Q if quick else Q + [{"p": 1}, {"r": 2}]
     e_all = gc.errs(membership=True)
     base = dict(errs=e_all, feed=None, records=1, poll_max_records=None)
     # assignor configurations: 1..3 strategies in every order (the JoinGroup construction)
@@ -29,14 +30,14 @@ def scenarios(ctx):
         out.append((f"assignors-{'-'.join(o)}", gc.two_members(members=members, **base), [{"r": 1}] if quick else Q))
     # broker JoinGroup version caps (v4+: MEMBER_ID_REQUIRED)
     for jm in (0, 1, 2, 5):
-        out.append((f"join-v{jm}", gc.two_members(join_max=jm, **base), B))
+        out.append((f"join-v{jm}", gc.two_members(join_max=jm, **base), B if jm in (0, 5) else B2))
     # a member leaving gracefully, a single member, three members
     out.append(("leave", gc.two_members(members=[dict(topics=["t"], assignors=["range"]), dict(topics=["t"], assignors=["range"], start=0.5, stop=1.8)], **base), B))
-    out.append(("single", gc.two_members(members=[dict(topics=["t"], assignors=["range"])], **base), B))
+    out.append(("single", gc.two_members(members=[dict(topics=["t"], assignors=["range"])], **base), B2))
     out.append(("three", gc.two_members(topics={"t": 3}, members=[dict(topics=["t"], assignors=["roundrobin"]),
                                                                  dict(topics=["t"], assignors=["roundrobin"], start=0.6),
                                                                  dict(topics=["t"], assignors=["roundrobin"], start=1.2)], **base), Q if quick else [{"r": 1}, {"f": 1}, {"k": 1}, {"k": 1, "f": 1}]))
-    out.append(("app-eager", gc.two_members(baseline="app", **base), B))
+    out.append(("app-eager", gc.two_members(baseline="app", **base), B2))
     out.append(("hb-rebalance-in-completing", gc.two_members(hb_completing=27, **base), Q))
     out.append(("subscription-change", gc.two_members(topics={"t": 2, "u": 1}, members=[dict(topics=["t"], assignors=["range"], resubscribe=[1.5, ["t", "u"]]),
                                                                                         dict(topics=["t", "u"], assignors=["range"], start=0.7)], **base), Q))
